@@ -55,5 +55,5 @@ package vgirpc
 //@   loop 0 invariant rangeindex < len(config.AllowedReturnOrigins)
 //@   loop 0 invariant forall o string :: has(allowedOrigins, o) ==> o == defaultAllowedReturnOrigin ||
 //@       (exists j int :: 0 <= j && j <= rangeindex && config.AllowedReturnOrigins[j] == o)
-//@   at call ChainAuthenticate assert [verbatim] forall o string :: has(allowedOrigins, o) ==> o == defaultAllowedReturnOrigin ||
+//@   at call CookieAuthenticate assert [verbatim] forall o string :: has(allowedOrigins, o) ==> o == defaultAllowedReturnOrigin ||
 //@       (exists j int :: 0 <= j && j < len(config.AllowedReturnOrigins) && config.AllowedReturnOrigins[j] == o)
